@@ -189,206 +189,7 @@ FLIP = {"<": ">", "<=": ">=", ">": "<", ">=": "<=", "==": "==", "!=": "!="}
 NEG = {"<": ">=", "<=": ">", ">": "<=", ">=": "<", "==": "!=", "!=": "=="}
 
 
-class CT(Term):
-    """A recording column / series / scalar of the sufficiency frame: pandas operations build terms."""
-    __hash__ = Term.__hash__
-
-    def __init__(self, op, *args, oracle=None):
-        super().__init__(op, *args)
-        self._oracle = oracle
-
-    def _mk(self, op, *args):
-        orc = self._oracle
-        for a in args:
-            orc = orc or getattr(a, "_oracle", None)
-        return CT(op, *args, oracle=orc)
-
-    def _sorted(self, op, o):
-        a, b = sorted([self, o], key=lambda t: t.key() if isinstance(t, Term) else repr(t))
-        return self._mk(op, a, b)
-
-    def __eq__(self, o): return self._mk("eq", self, o)
-    def __ne__(self, o): return self._mk("not", self._mk("eq", self, o))
-    def __lt__(self, o): return self._mk("lt", self, o)
-    def __le__(self, o): return self._mk("le", self, o)
-    def __gt__(self, o): return self._mk("gt", self, o)
-    def __ge__(self, o): return self._mk("ge", self, o)
-    def __and__(self, o): return self._sorted("and", o)
-    __rand__ = __and__
-    def __or__(self, o): return self._sorted("or", o)
-    __ror__ = __or__
-    def __invert__(self): return self.args[0] if self.op == "not" else self._mk("not", self)
-    def __mul__(self, o): return self._sorted("mul", o)
-    __rmul__ = __mul__
-    def __add__(self, o): return self._sorted("add", o)
-    __radd__ = __add__
-    def __sub__(self, o): return self._mk("sub", self, o)
-    def __rsub__(self, o):
-        if o in (1, 1.0) and self.op == "astype" and self.args[1] == "float":  # 1 - flag is the flag of the negation
-            return self._mk("astype", ~self.args[0], "float")
-        return self._mk("sub", o, self)
-    def __truediv__(self, o): return self._mk("div", self, o)
-    def __rtruediv__(self, o): return self._mk("div", o, self)
-
-    def notnull(self): return self._mk("notna", self)
-    notna = notnull
-    def isnull(self): return self._mk("not", self._mk("notna", self))
-    isna = isnull
-
-    def mask(self, cond, other=None):
-        if other is not None and not (isinstance(other, float) and other != other):
-            raise Unsupported("mask() with a replacement value on a recording column")
-        return self._mk("blank", self, cond)
-
-    def where(self, cond, other=None):
-        if other is not None and not (isinstance(other, float) and other != other):
-            raise Unsupported("where() with a replacement value on a recording column")
-        return self._mk("blank", self, ~cond if isinstance(cond, CT) else cond)
-
-    def dropna(self): return self._mk("dropna", self)
-
-    @property
-    def empty(self): return self._mk("empty", self)
-
-    def sum(self, *a, **k):
-        if a or k:
-            raise Unsupported("sum() with arguments on a recording column")
-        return self._mk("sum", self)
-
-    def mean(self, *a, **k):
-        if a or k:
-            raise Unsupported("mean() with arguments on a recording column")
-        return self._mk("mean", self)
-
-    def min(self): return self._mk("min", self)
-    def max(self): return self._mk("max", self)
-    def any(self): return self._mk("any", self)
-    def all(self): return self._mk("all", self)
-    def astype(self, t):
-        name = getattr(t, "__name__", t)
-        name = {"float64": "float", "int64": "int"}.get(name, name)
-        return self if name in ("int", "float") and self.op in ("sum",) else self._mk("astype", self, name)
-
-    def _abs_cast(self, name):
-        # int() / float() of a total of whole day counts is that total
-        return self
-
-    def groupby(self, by, **k):
-        if k:
-            raise Unsupported("groupby() with keyword arguments on a recording column")
-        return self._mk("groupby", self, by)
-
-    def apply(self, f):
-        from engine.absint import symbolic_apply
-        if self.op != "groupby":
-            raise Unsupported("apply() on a recording column that is not grouped")
-        r = f(CT("x")) if isinstance(f, Function) else None
-        if not isinstance(r, Term):
-            raise Unsupported("apply() with a function that does not reduce the group to a term")
-        return self._mk("apply", self, r)
-
-    def transform(self, f):
-        raise Unsupported("transform() on a recording column")
-
-    @property
-    def month(self): return self._mk("month", self)
-
-    def __bool__(self):
-        if self._oracle is None:
-            raise Unsupported(f"truth value of the recording term {self.key()[:80]}")
-        return self._oracle.choose(self.key())
-
-
-class CFrame(Stub):
-    def __init__(self, columns, oracle=None):
-        self._columns, self._oracle = list(columns), oracle
-
-    def _col(self, c):
-        if c not in self._columns:
-            raise InterpRaised("KeyError", str(c))
-        return CT(f"col:{c}", oracle=self._oracle)
-
-    def __getitem__(self, c):
-        if isinstance(c, str):
-            return self._col(c)
-        raise Unsupported("frame[...] with a non-column key on the recording frame")
-
-    def __getattr__(self, name):
-        if name.startswith("_"):
-            raise AttributeError(name)
-        if name in self.__dict__.get("_columns", ()):
-            return self._col(name)
-        raise AttributeError(name)
-
-    @property
-    def columns(self):
-        return list(self._columns)
-
-    @property
-    def index(self):
-        return CT("index", oracle=self._oracle)
-
-
-class SFrame(Stub):
-    """A frame whose columns are terms over the columns it started with; stores and .loc[mask, col] = nan are applied in order."""
-
-    def __init__(self, cols: Dict[str, Any], oracle=None, events=None):
-        self._cols, self._oracle, self._events = dict(cols), oracle, events if events is not None else []
-
-    @classmethod
-    def start(cls, columns, oracle=None):
-        return cls({c: CT(f"col:{c}", oracle=oracle) for c in columns}, oracle)
-
-    def __getitem__(self, c):
-        if isinstance(c, str):
-            if c not in self._cols:
-                raise InterpRaised("KeyError", c)
-            return self._cols[c]
-        raise Unsupported("frame[...] with a non-column key on the state frame")
-
-    def __setitem__(self, c, v):
-        if not isinstance(c, str):
-            raise Unsupported("frame[...] = ... with a non-column key on the state frame")
-        self._cols[c] = v
-
-    def __getattr__(self, name):
-        if name.startswith("_"):
-            raise AttributeError(name)
-        if name in self.__dict__.get("_cols", {}):
-            return self._cols[name]
-        raise AttributeError(name)
-
-    @property
-    def columns(self):
-        return list(self._cols)
-
-    @property
-    def index(self):
-        return CT("index", oracle=self._oracle)
-
-    @property
-    def loc(self):
-        return _SLoc(self)
-
-    def copy(self, deep=True):
-        return SFrame(self._cols, self._oracle, self._events)
-
-    def drop(self, columns=None, **k):
-        if columns is None or k:
-            raise Unsupported("drop() other than drop(columns=[...]) on the state frame")
-        return SFrame({c: v for c, v in self._cols.items() if c not in ([columns] if isinstance(columns, str) else list(columns))}, self._oracle, self._events)
-
-
-class _SLoc(Stub):
-    def __init__(self, fr):
-        self._fr = fr
-
-    def __setitem__(self, k, v):
-        if not (isinstance(k, tuple) and len(k) == 2 and isinstance(k[0], CT) and isinstance(k[1], str)):
-            raise Unsupported("frame.loc[...] = ... other than loc[mask, column] on the state frame")
-        if not (isinstance(v, float) and v != v):
-            raise Unsupported("frame.loc[mask, column] = <a value other than NaN> on the state frame")
-        self._fr._cols[k[1]] = self._fr[k[1]]._mk("blank", self._fr[k[1]], k[0])
+from rules.colterms import CT, CFrame, SFrame  # noqa: E402
 
 
 def _hourly_criteria_inputs(chk, cls_info, rep: bool, with_ghi: bool):
